@@ -131,7 +131,8 @@ def coq_qcase(case):
     bs = "[" + "; ".join(cb(b) for b in case['binders']) + "]"
     sel = "[" + "; ".join(coq_term(t) for t in case['sel']) + "]"
     cond = f"Some ({coq_cond(case['cond'])})" if case['cond'] is not None else "None"
-    return (f"{{| qc_heap := {heap}; qc_doms := {doms}; qc_binders := {bs}; qc_sel := {sel}; qc_cond := {cond} |}}")
+    filters = "[" + "; ".join(f"({k}, {coq_cond(c)})" for k, c in case.get('dom_filters', [])) + "]"
+    return (f"{{| qc_heap := {heap}; qc_doms := {doms}; qc_filters := {filters}; qc_binders := {bs}; qc_sel := {sel}; qc_cond := {cond} |}}")
 
 
 # ------------------------------------------------------------------------------------------------ canonical rows
